@@ -250,6 +250,13 @@ fn parse_statement(ast: &ast::Statement, context: &mut Context) -> TyperResult<V
                 }
             };
 
+            // An untyped value that fits no 32-bit integer type can not be compared with the switch value
+            if let ir::Constant::IntLiteral(v) = value
+                && (v < i32::MIN as i128 || v > u32::MAX as i128)
+            {
+                return Err(TyperError::CaseLabelOutOfRange(cond.location));
+            }
+
             let mut next = parse_statement(statement, context)?;
             next.insert(
                 0,
